@@ -91,22 +91,33 @@ def _pad_consts(func: ast.AST, what: str):
     return _one(found, f"{what}: padding expression `(.. + A) & ~M`")
 
 
+def _all_equal(vals, what):
+    if not vals or len(set(vals)) != 1:
+        raise T.TranslateError(f"{what}: expected one repeated constant, got {vals}")
+    return vals[0]
+
+
 def _varint_enc_consts(func):
+    """git's offset varint as coded in `_encode_varint`:
+    `result = [value & M]; value >>= S; while value > 0: value -= 1; result.append(C | (value & M)); value >>= S;
+    return bytes(reversed(result))` -> (M, S, C)"""
     mask = [n.right.value for n in ast.walk(func) if isinstance(n, ast.BinOp) and isinstance(n.op, ast.BitAnd)
             and isinstance(n.right, ast.Constant)]
     shift = [n.value.value for n in ast.walk(func) if isinstance(n, ast.AugAssign) and isinstance(n.op, ast.RShift)
              and isinstance(n.value, ast.Constant)]
-    cont = [n.value.value for n in ast.walk(func) if isinstance(n, ast.AugAssign) and isinstance(n.op, ast.BitOr)
-            and isinstance(n.value, ast.Constant)]
-    zero = [n for n in ast.walk(func) if isinstance(n, ast.If) and isinstance(n.test, ast.Compare)
-            and isinstance(n.test.ops[0], ast.Eq) and T.eval_literal(n.test.comparators[0]) == 0
-            and isinstance(n.body[0], ast.Return) and T.eval_literal(n.body[0].value) == b"\x00"]
-    _one(zero, "_encode_varint: `if value == 0: return b'\\x00'`")
-    return _one(mask, "_encode_varint mask"), _one(shift, "_encode_varint shift"), _one(cont, "_encode_varint cont")
+    cont = [n.left.value for n in ast.walk(func) if isinstance(n, ast.BinOp) and isinstance(n.op, ast.BitOr)
+            and isinstance(n.left, ast.Constant)]
+    dec = [n.value.value for n in ast.walk(func) if isinstance(n, ast.AugAssign) and isinstance(n.op, ast.Sub)
+           and isinstance(n.value, ast.Constant)]
+    src = ast.unparse(func)
+    if dec != [1] or "bytes(reversed(result))" not in src or len(mask) != 2 or len(shift) != 2:
+        raise T.TranslateError("_encode_varint is no longer git's offset varint as modelled "
+                               f"(masks {mask}, shifts {shift}, decrements {dec})")
+    return _all_equal(mask, "_encode_varint mask"), _all_equal(shift, "_encode_varint shift"), _one(cont, "_encode_varint cont")
 
 
-def _varint_dec_consts(func, what):
-    """`(byte & MASK) << shift`, `shift += S`, `byte & CONT` -> (MASK, S, CONT)"""
+def _varint_dec_consts(func, what, var):
+    """`<var> = -1 … <var> = (<var> + 1) << S | byte & MASK … byte & CONT` -> (MASK, S, CONT)"""
     masks = []
     for n in ast.walk(func):
         if isinstance(n, ast.BinOp) and isinstance(n.op, ast.BitAnd) and isinstance(n.left, ast.Name) \
@@ -115,9 +126,19 @@ def _varint_dec_consts(func, what):
     masks = [m for _, _, m in sorted(masks)]
     if len(masks) != 2:
         raise T.TranslateError(f"{what}: expected `byte & MASK` and `byte & CONT`, got {masks}")
-    shift = [n.value.value for n in ast.walk(func) if isinstance(n, ast.AugAssign) and isinstance(n.op, ast.Add)
-             and isinstance(n.target, ast.Name) and n.target.id == "shift" and isinstance(n.value, ast.Constant)]
-    return masks[0], _one(shift, f"{what}: shift += S"), masks[1]
+    shift = []
+    for n in ast.walk(func):
+        if isinstance(n, ast.Assign) and isinstance(n.targets[0], ast.Name) and n.targets[0].id == var \
+                and isinstance(n.value, ast.BinOp) and isinstance(n.value.op, ast.BitOr):
+            lhs = n.value.left
+            if isinstance(lhs, ast.BinOp) and isinstance(lhs.op, ast.LShift) and isinstance(lhs.right, ast.Constant) \
+                    and ast.unparse(lhs.left) == f"{var} + 1":
+                shift.append(lhs.right.value)
+    init = [T.eval_literal(n.value) for n in ast.walk(func) if isinstance(n, ast.Assign)
+            and isinstance(n.targets[0], ast.Name) and n.targets[0].id == var and not isinstance(n.value, ast.BinOp)]
+    if init != [-1]:
+        raise T.TranslateError(f"{what}: `{var} = -1` initialisation not found ({init})")
+    return masks[0], _one(shift, f"{what}: ({var} + 1) << S"), masks[1]
 
 
 def _opt(v):
@@ -149,13 +170,31 @@ def translate(repo: Path) -> dict:
 
     # varints
     e_mask, e_shift, e_cont = _varint_enc_consts(T.find_def(tree, "_encode_varint"))
-    s_mask, s_shift, s_cont = _varint_dec_consts(T.find_def(tree, "_decompress_path_from_stream"), "_decompress_path_from_stream")
-    d_mask, d_shift, d_cont = _varint_dec_consts(T.find_def(tree, "_decode_varint"), "_decode_varint")
+    s_mask, s_shift, s_cont = _varint_dec_consts(T.find_def(tree, "_decompress_path_from_stream"),
+                                                 "_decompress_path_from_stream", "remove_len")
+    d_mask, d_shift, d_cont = _varint_dec_consts(T.find_def(tree, "_decode_varint"), "_decode_varint", "value")
+    if "raise ValueError" not in ast.unparse(T.find_def(tree, "_decode_varint")):
+        raise T.TranslateError("_decode_varint no longer raises ValueError at the end of the data")
 
     # times
     wt = T.find_def(tree, "write_cache_time")
     rt = T.find_def(tree, "read_cache_time")
-    wt_fmt = _fmt_widths(_one(_struct_calls(wt, "pack"), "write_cache_time pack")[0])
+    wt_pack = _one(_struct_calls(wt, "pack"), "write_cache_time pack")
+    wt_fmt = _fmt_widths(wt_pack[0])
+    t_masks = []
+    for a_ in wt_pack[1].args[1:]:
+        if isinstance(a_, ast.BinOp) and isinstance(a_.op, ast.BitAnd) and isinstance(a_.right, ast.Constant) \
+                and isinstance(a_.left, ast.Name):
+            t_masks.append((a_.left.id, a_.right.value))
+        elif isinstance(a_, ast.Name):
+            t_masks.append((a_.id, None))
+        else:
+            raise T.TranslateError(f"write_cache_time: unrecognised struct.pack argument {ast.dump(a_)[:80]}")
+    if [n_ for n_, _ in t_masks] != ["secs", "nsecs"]:
+        raise T.TranslateError(f"write_cache_time packs {t_masks}; the model expects (secs, nsecs)")
+    for _, m_ in t_masks:
+        if m_ is not None and (m_ & (m_ + 1)) != 0:
+            raise T.TranslateError(f"write_cache_time: mask {m_:#x} is not of the form 2^k-1")
     rt_fmt = _fmt_widths(_one(_struct_calls(rt, "unpack"), "read_cache_time unpack")[0])
 
     # write_cache_entry
@@ -192,10 +231,10 @@ def translate(repo: Path) -> dict:
     ok = False
     for n in ast.walk(wce):
         if isinstance(n, ast.Assign) and isinstance(n.targets[0], ast.Name) and n.targets[0].id == "flags":
-            ok = ast.dump(n.value) == ast.dump(ast.parse("len(entry.name) | (entry.flags & ~FLAG_NAMEMASK)", mode="eval").body)
+            ok = ast.dump(n.value) == ast.dump(ast.parse("min(len(entry.name), FLAG_NAMEMASK) | (entry.flags & ~FLAG_NAMEMASK)", mode="eval").body)
             break
     if not ok:
-        raise T.TranslateError("write_cache_entry: `flags = len(entry.name) | (entry.flags & ~FLAG_NAMEMASK)` changed; "
+        raise T.TranslateError("write_cache_entry: `flags = min(len(entry.name), FLAG_NAMEMASK) | (entry.flags & ~FLAG_NAMEMASK)` changed; "
                                "the model's flag arithmetic no longer describes the code")
 
     # read_cache_entry
@@ -209,10 +248,12 @@ def translate(repo: Path) -> dict:
     r_read = T.eval_literal(r_call.args[1].args[0])
     r_pad = _pad_consts(rce, "read_cache_entry")
     r_cmp = _compares(rce, "version")
-    if [o for o, _ in r_cmp] != ["Lt", "GtE", "Lt"]:
+    if [o for o, _ in r_cmp] != ["Lt", "GtE"]:
         raise T.TranslateError(f"read_cache_entry: version comparisons changed: {r_cmp}")
     src_rce = ast.unparse(rce)
-    for needle in ("f.read(flags & FLAG_NAMEMASK)", "flags & ~FLAG_NAMEMASK", "flags & FLAG_EXTENDED"):
+    for needle in ("name_len = flags & FLAG_NAMEMASK", "name = f.read(name_len)", "if name_len == FLAG_NAMEMASK:",
+                   "if char == b'\\x00':", "raise ValueError('Unterminated name in index entry')",
+                   "name_end - beginoffset", "flags & ~FLAG_NAMEMASK", "flags & FLAG_EXTENDED"):
         if needle not in src_rce:
             raise T.TranslateError(f"read_cache_entry: `{needle}` not found; the model's reader no longer describes the code")
 
@@ -267,15 +308,21 @@ def translate(repo: Path) -> dict:
     rng = [(n.left.value, n.comparators[1].value) for n in ast.walk(rd) if isinstance(n, ast.Compare) and len(n.ops) == 2
            and isinstance(n.left, ast.Constant) and isinstance(n.comparators[1], ast.Constant)
            and all(isinstance(o, ast.LtE) for o in n.ops)]
-    sig_lo, sig_hi = _one(rng, "read_index_dict_with_version: 65 <= b <= 90")
+    sig_lo, sig_hi = _one(rng, "read_index_dict_with_version: 65 <= signature[0] <= 90")
+    rd_src = ast.unparse(rd)
+    if "type(extension) is IndexExtension and (not 65 <= signature[0] <= 90)" not in rd_src.replace(str(sig_lo), "65").replace(str(sig_hi), "90") \
+            or "raise UnsupportedIndexExtension(signature)" not in rd_src or "f.seek(-4, 1)" in rd_src:
+        raise T.TranslateError("read_index_dict_with_version: the extension rule (every signature is parsed; an unknown "
+                               "one must start with A..Z) is no longer the one modelled")
     ext_sz_fmt = _fmt_widths(_one(_struct_calls(rd, "unpack"), "read_index_dict_with_version unpack")[0])
     # which extension classes drop their payload (to_bytes returns b"")
     from_raw = T.find_def(tree, "IndexExtension.from_raw")
-    drop = []
+    drop, known = [], []
     for n in ast.walk(from_raw):
         if isinstance(n, ast.If) and isinstance(n.test, ast.Compare) and isinstance(n.test.left, ast.Name) \
                 and n.test.left.id == "signature" and isinstance(n.test.comparators[0], ast.Name):
             signame = n.test.comparators[0].id
+            known.append(c[signame])
             ret = n.body[0].value
             cls = ret.func.value.id
             cdef = T.find_def(tree, cls)
@@ -302,6 +349,13 @@ def translate(repo: Path) -> dict:
     sha_read = [n.args[0].value for n in ast.walk(cs) if isinstance(n, ast.Call) and isinstance(n.func, ast.Attribute)
                 and n.func.attr == "read" and n.args and isinstance(n.args[0], ast.Constant)]
     sha_read = _one(sha_read, "SHA1Reader.check_sha: self.f.read(20)")
+    cs_src = ast.unparse(cs)
+    cs_zero = [T.eval_literal(n) for n in ast.walk(cs) if isinstance(n, ast.BinOp) and isinstance(n.op, ast.Mult)]
+    if "if stored != self.sha1.digest() and (not (allow_empty and stored ==" not in cs_src or len(cs_zero) != 1 \
+            or set(cs_zero[0]) != {0}:
+        raise T.TranslateError("SHA1Reader.check_sha: condition is no longer "
+                               "`stored != digest and not (allow_empty and stored == b'\\0' * N)`")
+    sha_zero_len = len(cs_zero[0])
 
     def b(x):
         return T.lean_bytes(x)
@@ -324,16 +378,18 @@ def untrSig : List UInt8 := {b(c['UNTR_EXTENSION'])}
 def sdirSig : List UInt8 := {b(c['SDIR_EXTENSION'])}
 /-- signatures whose class parses to nothing and serialises to `b""` (`from_raw` / `to_bytes`) -/
 def dropPayloadSigs : List (List UInt8) := [{", ".join(b(x) for x in drop)}]
+/-- signatures `from_raw` maps to a class of their own (everything else stays a plain `IndexExtension`) -/
+def knownSigs : List (List UInt8) := [{", ".join(b(x) for x in known)}]
 /-- `read_index_header`: magic, accepted versions, `>LL` -/
 def magic : List UInt8 := {b(magic)}
 def versions : List Nat := {vers}
 def headerFmt : List Nat := {hdr_fmt}
 def writeHeaderFmt : List Nat := {wi_fmt}
-/-- `_encode_varint`: `value & M`, `value >>= S`, `byte |= C` -/
+/-- `_encode_varint` (git's offset varint): `value & M`, `value >>= S`, `C | (value & M)` -/
 def varintEncMask : Nat := {e_mask}
 def varintEncShift : Nat := {e_shift}
 def varintEncCont : Nat := {e_cont}
-/-- `_decompress_path_from_stream`: `(byte & M) << shift`, `shift += S`, `byte & C` -/
+/-- `_decompress_path_from_stream`: `remove_len = (remove_len + 1) << S | byte & M`, `byte & C` -/
 def varintStreamMask : Nat := {s_mask}
 def varintStreamShift : Nat := {s_shift}
 def varintStreamCont : Nat := {s_cont}
@@ -358,6 +414,9 @@ def modeMask : Option Nat := {_opt(masks['mode'])}
 def uidMask : Option Nat := {_opt(masks['uid'])}
 def gidMask : Option Nat := {_opt(masks['gid'])}
 def sizeMask : Option Nat := {_opt(masks['size'])}
+/-- `secs & MASK, nsecs & MASK` inside the struct.pack call of `write_cache_time` -/
+def timeSecMask : Option Nat := {_opt(t_masks[0][1])}
+def timeNsecMask : Option Nat := {_opt(t_masks[1][1])}
 /-- `(f.tell() - beginoffset + A) & ~M` -/
 def padAddWrite : Nat := {w_pad[0]}
 def padMaskWrite : Nat := {w_pad[1]}
@@ -367,10 +426,9 @@ def padMaskRead : Nat := {r_pad[1]}
 def wCompressFrom : Nat := {w_cmp[0][1]}
 def wExtendedFrom : Nat := {w_cmp[1][1]}
 def wCompressFrom2 : Nat := {w_cmp[2][1]}
-/-- read_cache_entry `version < A` (extended flag), `version >= B` (compressed), `version < C` (padding) -/
+/-- read_cache_entry `version < A` (extended flag), `version >= B` (compressed; otherwise name + padding) -/
 def rExtendedFrom : Nat := {r_cmp[0][1]}
 def rCompressFrom : Nat := {r_cmp[1][1]}
-def rPadBelow : Nat := {r_cmp[2][1]}
 /-- write_index: `if uses_extended_flags and version < A: version = B` -/
 def bumpBelow : Nat := {wi_cmp[0][1]}
 def bumpTo : Nat := {bump}
@@ -381,7 +439,7 @@ def readStageNormal : Nat := {slots['normal']}
 def readStageAncestor : Nat := {slots['ancestor']}
 def readStageThis : Nat := {slots['this']}
 def readStageOther : Nat := {slots['other']}
-/-- extension loop: `current_pos >= eof_pos - T`; signature bytes must satisfy `LO <= b <= HI` -/
+/-- extension loop: `current_pos >= eof_pos - T`; an extension of an unknown class is refused unless `LO <= signature[0] <= HI` -/
 def trailerLen : Nat := {trailer}
 def sigLo : Nat := {sig_lo}
 def sigHi : Nat := {sig_hi}
@@ -389,6 +447,8 @@ def sigHi : Nat := {sig_hi}
 def skipHashZeros : Nat := {len(zeros)}
 def allowEmpty : Bool := {'true' if allow else 'false'}
 def shaReadLen : Nat := {sha_read}
+/-- check_sha: `allow_empty and stored == b"\\x00" * N` -/
+def shaZeroLen : Nat := {sha_zero_len}
 end Dulwich.Gen.Index
 """
     return {"Index": src}
@@ -502,7 +562,7 @@ def canon_real_item(k: bytes, v) -> str:
 
 
 EXC_MAP = {"error": "struct", "ValueError": "value", "AssertionError": "assertion", "ChecksumMismatch": "checksum",
-           "UnsupportedIndexFormat": "unsupported"}
+           "UnsupportedIndexFormat": "unsupported", "UnsupportedIndexExtension": "unsupportedext"}
 
 
 def exc_kind(ex: BaseException) -> str:
@@ -611,14 +671,15 @@ def expect_time(t):
 
 
 def time_matches(exp, got) -> bool:
+    """The index holds the low 32 bits of seconds and nanoseconds (git: `(unsigned int)`)."""
     if not isinstance(got, tuple) or len(got) != 2:
         return False
     if exp[0] == "pair":
-        return got == (exp[1], exp[2])
+        return got == (exp[1] % U32, exp[2] % U32)
     import math
     t = exp[1]
     sec = math.floor(t)
-    return got[0] == sec and abs(got[1] - (t - sec) * 1e9) <= 1.0 and 0 <= got[1] < 1000000000
+    return got[0] == sec % U32 and abs(got[1] - (t - sec) * 1e9) <= 1.0 and 0 <= got[1] < 1000000000
 
 
 def expected_entry(e: dict, stage: int):
@@ -719,7 +780,7 @@ def classify_index_case(case: dict, for_git: bool = False) -> str | None:
         return "time-out-of-u32"
     if any(len(k) >= 0x1000 for k, _ in ents):
         return "name_len>=4096"
-    if any(not (len(unhx(x[0])) == 4 and all(65 <= b <= 90 for b in unhx(x[0]))) for x in case["exts"]
+    if any(not all(65 <= b <= 90 for b in unhx(x[0])) for x in case["exts"]
            if unhx(x[1]) and unhx(x[0]) not in (b"TREE", b"REUC", b"sdir")):
         return "ext-sig-not-upper"
     if for_git and v4_strip_ge_128(case):
@@ -743,7 +804,12 @@ def in_quantifier(case: dict) -> bool:
         if len(e["sha"]) != 40:
             return False
     for x in case["exts"]:
-        if len(unhx(x[0])) != 4:
+        sig = unhx(x[0])
+        if len(sig) != 4:
+            return False
+        if sig not in KNOWN_SIGS and not 65 <= sig[0] <= 90 and unhx(x[1]):
+            # an extension nobody understands whose signature does not start with A..Z must be refused by every
+            # reader (index-format: only A..Z extensions are optional); git dies on it, dulwich raises
             return False
     return True
 
@@ -1049,8 +1115,9 @@ def g_exts(rng, trouble=None):
 
 
 def g_index_case(rng, trouble=None, wild=False, style=None) -> tuple[str, dict]:
-    """-> (tag, case).  trouble: None|'bigsize'|'bigtime'|'emptyext'|'lowerext' (inputs on which the unchanged code is
-    already known to fail are generated on purpose, at a controlled rate, and matched by class)."""
+    """-> (tag, case).  trouble: None|'bigsize'|'bigtime'|'emptyext'|'lowerext': boundary inputs generated on purpose at
+    a controlled rate (sizes/times beyond 32 bits, empty and lower-case extensions); the class labels only identify
+    findings, 'fixed' ones suppress nothing."""
     style, names = g_names(rng, style)
     items = []
     tpos = rng.randrange(len(names)) if names else -1
@@ -1095,9 +1162,18 @@ def _stream_varint(ctx):
             ctx.disagree("varint.enc", {"n": n}, o, hx(real))
         # direct oracle: decode(encode n) = n, both decoders
         tail = rng.randbytes(rng.choice([0, 1, 3]))
-        v, pos = I._decode_varint(real + tail, 0)
+        try:
+            v, pos = I._decode_varint(real + tail, 0)
+        except Exception as ex:
+            v, pos = exc_kind(ex), -1
         if (v, pos) != (n, len(real)):
             ctx.oracle_fail("varint.roundtrip", {"kind": "varint", "n": n, "tail": hx(tail)}, f"_decode_varint(_encode_varint(n)) = {(v, pos)}")
+        # interoperability: the encoding is the one of git's varint.c (reference transcription, itself tied to C git
+        # by the git.varint stream)
+        if real != _py_varint_git(n):
+            ctx.oracle_fail("varint.git", {"kind": "varint", "n": n, "tail": "-"},
+                            f"_encode_varint({n}) = {real.hex()} but git's varint.c gives {_py_varint_git(n).hex()}",
+                            "v4-strip>=128" if n >= 128 else None)
         # model of git's varint vs the reference transcription of varint.c (tied to C git itself in git.varint)
         if g != hx(_py_varint_git(n)):
             ctx.disagree("varint.gitmodel", {"n": n}, g, hx(_py_varint_git(n)), "git-reference")
@@ -1106,9 +1182,12 @@ def _stream_varint(ctx):
     blobs += [bytes(rng.choice([0, 1, 0x7f, 0x80, 0x81, 0xff]) for _ in range(rng.randint(0, 6))) for _ in range(ctx.budget(300))]
     outs = ctx.driver.batch([f"c11.decvarint {hx(b)}" for b in blobs])
     for b, o in zip(blobs, outs):
-        v, pos = I._decode_varint(b, 0)
-        real = f"{v} {hx(b[pos:])}"
-        ctx.count("varint.dec", b, True, "cont-at-end" if b and b[-1] & 0x80 and pos == len(b) else "ok")
+        try:
+            v, pos = I._decode_varint(b, 0)
+            real = f"ok {v} {hx(b[pos:])}"
+        except Exception as ex:
+            real = exc_kind(ex)
+        ctx.count("varint.dec", b, True, real[:9])
         if o != real:
             ctx.disagree("varint.dec", {"data": hx(b)}, o, real)
 
@@ -1609,13 +1688,13 @@ def check_gitwritten_case(ctx, git: Git, stream: str, desc: dict, raw: bytes, li
     path = ctx.scratch / "gitwritten.index"
     path.write_bytes(raw)
     c = dict(desc, file=hx(raw) if len(raw) < 20000 else hx(raw[:20000]) + "...")
-    cls = classify_git_written(raw, listed)
+    cls = classify_git_written(raw, listed or [])
     r = real_index_read(path)
     if r[0] == "err":
         ctx.oracle_fail(stream, c, f"dulwich cannot read an index written by C git: {r[1]}", cls)
         return r[1]
     got = [git_tuple_real(k, st, e) for k, st, e in real_flat(r[1])]
-    if got != listed:
+    if listed is not None and got != listed:
         diff = next(((a, b) for a, b in zip(got, listed) if a != b), (len(got), len(listed)))
         ctx.oracle_fail(stream, c, f"dulwich reads entries that differ from what C git lists: first difference "
                         f"{str(diff)[:300]}", cls)
@@ -1726,21 +1805,27 @@ def _run_corpus_witnesses(ctx, git: Git):
         w = json.loads(f.read_text())
         kind = w.get("kind")
         if kind == "index":
+            if not in_quantifier(w["case"]):
+                continue
             if path.exists():
                 path.unlink()
             if w.get("prior"):
                 path.write_bytes(unhx(w["prior"]))
             ok = oracle_roundtrip(ctx, w.get("stream", "index.roundtrip"), w["case"], path, unhx(w["prior"]) if w.get("prior") else None)
-            if w.get("git") and path.exists():
+            if w.get("git") and ok and git_eligible(w["case"]):
                 oracle_git_lists(ctx, git, "git.lists", w["case"], path)
         elif kind == "damage":
             check_damage_case(ctx, "index.damage", w, path)
         elif kind == "gitwritten":
             raw = unhx(w["file"])
             path.write_bytes(raw)
-            rc, listed, err = git.ls(path, sparse=w.get("sparse", False))
-            if rc == 0:
-                check_gitwritten_case(ctx, git, "git.written", {"kind": "gitwritten", "scenario": w.get("scenario")}, raw, listed)
+            listed = None
+            if not w.get("sparse"):
+                # (a sparse index can only be listed inside the repository it belongs to: elsewhere git expands it)
+                rc, listed, err = git.ls(path)
+                if rc != 0:
+                    raise core.InfraError(f"git cannot list the stored git-written witness {f.name}: {err!r}")
+            check_gitwritten_case(ctx, git, "git.written", {"kind": "gitwritten", "scenario": w.get("scenario")}, raw, listed)
         elif kind == "entry":
             pass    # replayed at the head of the entry stream
         ctx.count("corpus", f.stem, True, kind)
